@@ -3,6 +3,14 @@ import Poulpy.Generated.U32.AndTab
 import Poulpy.Generated.U32.OrTab
 import Poulpy.Generated.U32.XorTab
 import Poulpy.Generated.U32.IdentityTab
+import Poulpy.Lemmas.BddSpecs
+import Poulpy.Generated.U32.AddTab
+import Poulpy.Generated.U32.SubTab
+import Poulpy.Generated.U32.SllTab
+import Poulpy.Generated.U32.SrlTab
+import Poulpy.Generated.U32.SraTab
+import Poulpy.Generated.U32.SltTab
+import Poulpy.Generated.U32.SltuTab
 /-
 C13, kernel-only route (no `bv_decide`, no Mathlib; axioms ⊆ {propext, Quot.sound, Classical.choice}) for the
 bitwise word operations: each per-bit circuit of `and`, `or`, `xor` names at most the two input bits `a_i`, `b_i`
@@ -10,6 +18,15 @@ bitwise word operations: each per-bit circuit of `and`, `or`, `xor` names at mos
 inputs as soon as it is on the 4 (resp. 2) assignments of those bits — checked, together with the support
 itself, by kernel evaluation on the regenerated tables.  Same statements as `C13.and_correct` … (which go
 through `bv_decide`); this file imports only the table literals.
+
+The arithmetic circuits (add, sub: carry / borrow chain; slt, sltu: comparison chain; sll, srl, sra: barrel shifter)
+have full support, so they go through a verified checker instead (`Lemmas/BddSim.lean`): the circuit is compared
+level by level with a small specification automaton (`Lemmas/BddSpecs.lean`; carry-conditional states for add/sub,
+"equal so far" states for the comparisons, "shift amount so far" states for the shifters), `checkFlat … = true` is
+evaluated by the kernel on each regenerated table, `BddSim.check_sound` (proved once) turns it into
+`∀ inp, evalFlat … inp = some (value of the root state)`, and `add_root` … (proved once per family from the core
+`BitVec` lemmas `carry_succ`, `getLsbD_add_add_bool`, `slt_eq_ult`, `getLsbD_shiftLeft'`, …) identify that value with the
+bit of the word operation.  All 290 per-bit circuits are covered without `bv_decide`.
 -/
 
 namespace C13Kernel
@@ -59,5 +76,73 @@ theorem identity_correct (i : Nat) (hi : i < 32) (a : BitVec 32) :
   rfl
 
 example : evalFlat 64 (And.width 5) (And.flat 5) (inp2 0xFFFFFFFF#32 0x00000020#32) = some true := by decide +kernel
+
+/-! ### arithmetic circuits through the verified checker -/
+
+open BddSim BddSpecs
+
+theorem add_tables : ∀ i, i < 32 → checkFlat (addSpec false i) 4 64 (Add.width i) (Add.flat i) (.S 0 false) = true := by
+  decide +kernel
+
+theorem sub_tables : ∀ i, i < 32 → checkFlat (addSpec true i) 4 64 (Sub.width i) (Sub.flat i) (.S 0 true) = true := by
+  decide +kernel
+
+theorem sll_tables : ∀ i, i < 32 →
+    checkFlat (shSpec (sllTerm i) (sllDat i)) 4 37 (Sll.width i) (Sll.flat i) (.P 0 0) = true := by
+  decide +kernel
+
+theorem srl_tables : ∀ i, i < 32 →
+    checkFlat (shSpec (srlTerm i) (srDat i)) 4 37 (Srl.width i) (Srl.flat i) (.P 0 0) = true := by
+  decide +kernel
+
+theorem sra_tables : ∀ i, i < 32 →
+    checkFlat (shSpec (sraTerm i) (srDat i)) 4 37 (Sra.width i) (Sra.flat i) (.P 0 0) = true := by
+  decide +kernel
+
+theorem slt_table : checkFlat cmpSpec 4 64 (Slt.width 0) (Slt.flat 0) CQ.Top = true := by decide +kernel
+
+theorem sltu_table : checkFlat cmpSpec 4 64 (Sltu.width 0) (Sltu.flat 0) (CQ.E 32) = true := by decide +kernel
+
+/-- `add`: every output bit, all 2^64 inputs — kernel only -/
+theorem add_correct (i : Nat) (hi : i < 32) (a b : BitVec 32) :
+    evalFlat 64 (Add.width i) (Add.flat i) (inp2 a b) = some ((a + b).getLsbD i) := by
+  rw [check_sound (addSpec false i) (inp2 a b) (addVal false i (inp2 a b)) (addVal_eq false i (inp2 a b)) 4 64 _ _ _
+    (add_tables i hi), add_root a b i hi]
+
+theorem sub_correct (i : Nat) (hi : i < 32) (a b : BitVec 32) :
+    evalFlat 64 (Sub.width i) (Sub.flat i) (inp2 a b) = some ((a - b).getLsbD i) := by
+  rw [check_sound (addSpec true i) (inp2 a b) (addVal true i (inp2 a b)) (addVal_eq true i (inp2 a b)) 4 64 _ _ _
+    (sub_tables i hi), sub_root a b i hi]
+
+theorem sll_correct (i : Nat) (hi : i < 32) (a b : BitVec 32) :
+    evalFlat 37 (Sll.width i) (Sll.flat i) (inp2 a b) = some ((a <<< (b &&& 31#32)).getLsbD i) := by
+  rw [check_sound _ (inp2 a b) (shVal (sllTerm i) (sllDat i) (inp2 a b)) (shVal_eq _ _ _) 4 37 _ _ _
+    (sll_tables i hi), sll_root a b i hi]
+
+theorem srl_correct (i : Nat) (hi : i < 32) (a b : BitVec 32) :
+    evalFlat 37 (Srl.width i) (Srl.flat i) (inp2 a b) = some ((a >>> (b &&& 31#32)).getLsbD i) := by
+  rw [check_sound _ (inp2 a b) (shVal (srlTerm i) (srDat i) (inp2 a b)) (shVal_eq _ _ _) 4 37 _ _ _
+    (srl_tables i hi), srl_root a b i hi]
+
+theorem sra_correct (i : Nat) (hi : i < 32) (a b : BitVec 32) :
+    evalFlat 37 (Sra.width i) (Sra.flat i) (inp2 a b) = some ((BitVec.sshiftRight' a (b &&& 31#32)).getLsbD i) := by
+  rw [check_sound _ (inp2 a b) (shVal (sraTerm i) (srDat i) (inp2 a b)) (shVal_eq _ _ _) 4 37 _ _ _
+    (sra_tables i hi), sra_root a b i hi]
+
+theorem slt_correct (a b : BitVec 32) :
+    evalFlat 64 (Slt.width 0) (Slt.flat 0) (inp2 a b) = some (BitVec.slt a b) := by
+  rw [check_sound cmpSpec (inp2 a b) (cmpVal (inp2 a b)) (cmpVal_eq _) 4 64 _ _ _ slt_table, slt_root a b]
+
+theorem sltu_correct (a b : BitVec 32) :
+    evalFlat 64 (Sltu.width 0) (Sltu.flat 0) (inp2 a b) = some (BitVec.ult a b) := by
+  rw [check_sound cmpSpec (inp2 a b) (cmpVal (inp2 a b)) (cmpVal_eq _) 4 64 _ _ _ sltu_table, sltu_root a b]
+
+/-- the checker is not vacuous: it rejects a table with one operand of one `cmux` changed (add, bit 1) and a
+specification with the wrong carry-in -/
+example : checkFlat (addSpec false 1) 4 64 2
+    [.cmux 33 0 1, .cmux 33 1 0, .cmux 1 1 0, .cmux 1 0 1, .cmux 32 0 1, .copy, .cmux 0 0 0, .none] (.S 0 false) = false ∧
+    checkFlat (addSpec false 1) 4 64 (Add.width 1) (Add.flat 1) (.S 0 true) = false := by decide +kernel
+
+example : evalFlat 64 (Add.width 31) (Add.flat 31) (inp2 0x7FFFFFFF#32 0x00000001#32) = some true := by decide +kernel
 
 end C13Kernel
